@@ -7,7 +7,7 @@ import vlib
 HOOK_FLAGS = ['-DMI_VERIF_HOOKS="%s"' % os.path.join(vlib.HARN, "hooks.h"), "-DMI_PRIM_THREAD_ID=verif_tid", "-Wno-unused-value"]
 
 KINDS = {
-    "C02": {"tfree": {"overlap", "content", "crash", "livelock", "fail"}},
+    "C02": {"tfree": {"overlap", "content", "crash", "livelock", "fail"}, "exit": {"overlap", "content", "crash"}},
     "C08": {"tfree": {"lost", "leak", "livelock"}},
     "C09": {"exit": {"content", "overlap", "crash", "abandoned-leak", "leak", "segment-leak", "livelock", "fail"}},
     "C10": {"heap": {"content", "overlap", "crash", "leak", "livelock", "fail"}},
